@@ -80,6 +80,10 @@ func runC07(p *Prog, r *Report) {
 	if want("C07.7") {
 		ruleFileNumRecycling(p, r, "C07.7")
 	}
+	if want("C07.11") {
+		// files stay while a view pins their version (shared with C03.4)
+		ruleViewsPin(p, r, "C07.11")
+	}
 	if want("C07.10") {
 		ruleReleaseOnce(p, r, "C07.10")
 	}
